@@ -139,6 +139,22 @@ def set_path(t, v, path, nt, nv):
     return ('pair', t[1], st), (v[0], sv)
 
 
+def below_stack_case(ctx, t, v, path, lv, rest):
+    """What the body of MAP_C..R sees below the mapped component (reference expansions):
+    MAP_CAR = { DUP ; CDR ; DIP { CAR ; code } ; SWAP ; PAIR }  -> code runs on  car : S
+    MAP_CDR = { DUP ; CDR ; code ; SWAP ; CAR ; PAIR }          -> code runs on  cdr : the pair itself : S"""
+    if path[-1] == 'A':
+        bt, bv = set_path(t, v, path, T.NAT, lv + 1000)
+        expect(ctx, 'map-cxr-body-sees-stack', 'MAP_C%sR' % path, pushes([(t, v), (T.NAT, 1000)] + rest) + ' ; MAP_C%sR { DUP 2 ; ADD }' % path,
+               ('ok', [(bt, bv), (T.NAT, 1000)] + rest))
+    else:
+        _pt, pv = get_path(t, v, path[:-1])
+        sibling = pv[0]
+        bt, bv = set_path(t, v, path, T.NAT, lv + sibling)
+        expect(ctx, 'map-cxr-body-sees-pair', 'MAP_C%sR' % path, pushes([(t, v)] + rest) + ' ; MAP_C%sR { DUP 2 ; CAR ; ADD }' % path,
+               ('ok', [(bt, bv)] + rest))
+
+
 CMP = {'EQ': lambda c: c == 0, 'NEQ': lambda c: c != 0, 'LT': lambda c: c < 0, 'GT': lambda c: c > 0, 'LE': lambda c: c <= 0, 'GE': lambda c: c >= 0}
 
 
@@ -181,6 +197,8 @@ def run(ctx):
             expect(ctx, 'set-cxr', 'SET_C%sR' % path, pushes([(t, v), (T.NAT, 7)] + rest) + ' ; SET_C%sR' % path, ('ok', [(nt, nv)] + rest))
             mt, mv = set_path(t, v, path, T.NAT, lv + 1)
             expect(ctx, 'map-cxr', 'MAP_C%sR' % path, pushes([(t, v)] + rest) + ' ; MAP_C%sR { PUSH nat 1 ; ADD }' % path, ('ok', [(mt, mv)] + rest))
+            # a body that reads the caller's stack below the component it maps
+            below_stack_case(ctx, t, v, path, lv, rest)
             if L <= 3:
                 # type-changing MAP
                 ct, cv = set_path(t, v, path, T.INT, lv)
@@ -192,6 +210,7 @@ def run(ctx):
         expect(ctx, 'set-cxr', 'SET_C%sR' % path, pushes([(t, v), (T.NAT, 7)] + rest) + ' ; SET_C%sR' % path, ('ok', [(nt, nv)] + rest))
         mt, mv = set_path(t, v, path, T.NAT, lv + 1)
         expect(ctx, 'map-cxr', 'MAP_C%sR' % path, pushes([(t, v)] + rest) + ' ; MAP_C%sR { PUSH nat 1 ; ADD }' % path, ('ok', [(mt, mv)] + rest))
+        below_stack_case(ctx, t, v, path, lv, rest)
     # DII+P / DUU+P
     items = tagged(8)
     for n in range(2, 7):
